@@ -356,11 +356,14 @@ def rep_case(draw):
     ng = draw(st.integers(1, 3))
     cx = (not hyp) and draw(st.integers(0, 3)) == 0
     gens = []
-    for _ in range(ng):
+    for gi in range(ng):
         if hyp:
             gens.append(draw(objs.s_isometry(n, tmax=0.8)))
         else:
-            gens.append(draw(objs.s_matrix(n + 1, cx, maxfactor=2.0)))
+            # a complex representation may have some real generators (the first is complex,
+            # the later ones - in particular the one assigned last - real or complex)
+            cx_i = cx and (gi == 0 or draw(st.booleans()))
+            gens.append(draw(objs.s_matrix(n + 1, cx_i, maxfactor=2.0)))
     names = GEN_NAMES[:ng]
     alphabet = names + [g.upper() for g in names]
     nw = draw(st.integers(1, 4))
